@@ -42,6 +42,7 @@ def dispatch (dom : String) (ops : Array String) : Array String :=
   | "cachelayer" => CacheLayer.runCase ops
   | "fuzzy" => Fuzzy.runCase ops
   | "cli" => Cli.runCase ops
+  | "boosts" => Search.runCase ops
   | _ => ops.map (fun _ => "unknown-domain")
 
 end Driver
